@@ -12,6 +12,9 @@ cnt_f = z3.Function('cnt', Val, SeqVal, smt.Int)     # occurrences of an element
 EMPTYSET = z3.EmptySet(Val)
 
 
+bjoin_f = z3.Function('bjoin', SeqVal, smt.Bytes)        # b''.join(list): concatenation of a sequence of bytes values
+
+
 class VListAt(V):
     """the list object stored under `key` in a symbolic dict of lists"""
     def __init__(self, addr, key):
@@ -457,7 +460,29 @@ class DataMixin:
         if isinstance(obj, (VTuple, VSeq)):
             if name == '__iter__':
                 return VBound(VModel('tuple.__iter__', lambda ex, a, k: VIterView('iter', a[0])), obj)
+        if isinstance(obj, VBytes) and name == 'join':
+            return VBound(VModel('bytes.join', lambda ex, a, k: self.bm_join(*a)), obj)
         return None
+
+    # --- bytes
+    def bm_join(self, sep, parts):
+        """b''.join(list of bytes): the concatenation, as the uninterpreted function bjoin over the list's sequence with its two defining equations
+        (empty list; one more element at the end) instantiated where lists are built"""
+        ex = self.ex
+        if not (isinstance(sep, VBytes) and z3.is_true(smt.simp(z3.Length(sep.e) == 0))):
+            raise Undecided('bytes.join with a non-empty separator')
+        items = self.iter_concrete(parts)
+        if items is not None:
+            if not all(isinstance(x, VBytes) for x in items):
+                raise Undecided('bytes.join over non-bytes items')
+            if not items:
+                return VBytes(z3.Empty(smt.Bytes))
+            return VBytes(z3.Concat(*[x.e for x in items]) if len(items) > 1 else items[0].e)
+        if self.is_symlist(parts):
+            seq = self.seq_get(parts)
+            ex.assume(bjoin_f(z3.Empty(SeqVal)) == z3.Empty(smt.Bytes))
+            return VBytes(bjoin_f(seq))
+        raise Undecided(f'bytes.join over {parts!r}')
 
     # --- str
     def sm_lower(self, s):
@@ -530,6 +555,10 @@ class DataMixin:
         u = z3.Unit(lower(v, self.ex))
         new = z3.Concat(seq, u)
         self.fact_concat(new, [seq, u])
+        if isinstance(v, VBytes):
+            # defining equation of bjoin for one more element at the end
+            self.ex.assume(bjoin_f(new) == z3.Concat(bjoin_f(seq), v.e))
+            self.ex.assume(bjoin_f(z3.Empty(SeqVal)) == z3.Empty(smt.Bytes))
         self.seq_set(lst, new)
         return NONE
 
